@@ -375,6 +375,8 @@ func (r *rig) actors() []gx.Actor {
 		acts = append(acts, do("mark", cur+1), do("mark", cur+2))
 		if cur >= 1 {
 			acts = append(acts, do("reset", cur-1))
+			// a late mark (two goroutines of the application marking out of order): position and metadata must stay
+			acts = append(acts, do("mark", cur-1))
 		}
 		acts = append(acts, do("reset", cur))
 	}
